@@ -20,39 +20,7 @@ ASSUMPTIONS = ['size notes and Terrapin notes are kept out by construction (no k
 PRODUCT = {'': 'OpenSSH', 'd': 'Dropbear SSH', 'l1': 'libssh'}
 
 
-def since_text(versions):
-    """Independent rendering of the 'available since' text from the database's version field."""
-    if not versions or versions[0] is None:
-        return None
-    parts = []
-    for v in versions[0].split(','):
-        cli = v.endswith('C')
-        if cli:
-            v = v[:-1]
-        if v.startswith('d'):
-            prod, ver = 'Dropbear SSH', v[1:]
-        elif v.startswith('l1'):
-            continue
-        else:
-            prod, ver = 'OpenSSH', v
-        if not ver:
-            continue
-        parts.append('%s %s%s' % (prod, ver, ' (client only)' if cli else ''))
-    if not parts:
-        return None
-    return 'available since ' + ', '.join(parts)
-
-
-def reference(cat, dbname):
-    desc = gen.db()['ssh2'][cat][dbname]
-    notes = []
-    for idx, lv in ((1, 'fail'), (2, 'warn'), (3, 'info')):
-        if len(desc) > idx:
-            notes += [(lv, t) for t in desc[idx] if t is not None]
-    st = since_text(desc[0])
-    if st:
-        notes.append(('info', st))
-    return sorted(notes)
+from .common import since_text, reference  # noqa: E402,F401
 
 
 def cases(seed, tier):
